@@ -94,12 +94,14 @@ var c13Programs = []string{
 	`local s = "a" .. "b"; if x < 0 then return #s end; return #s + x`,
 	`local ok, e = pcall(function() error({x}) end); return e[1]`,
 	`local co = coroutine.wrap(function(a) local b = coroutine.yield(a + 1); return a + b end); return co(x) + co(x)`,
+	// several non-local targets fed by one call (the compiler asks for a result-count context), nested in another
+	`local function f() return x, x + 1, x + 2 end; ga, gb, gc = f(function() gx, gy = f() end); local t = {}; t.a, t.b = f(); return ga + gb + gc + t.a + t.b`,
 }
 
 // C13.footprint — executing a shared compiled prototype in two states never writes the prototype or
 // any package-level variable, and each state computes what it computes alone.
 //
-//verif:harness prop=C13 tier=quick bounds="6 program templates compiled once and run in 2 states with independent symbolic integer inputs (32-bit); sequential executions only (no goroutine schedules)"
+//verif:harness prop=C13 tier=quick bounds="7 program templates compiled once and run in 2 states with independent symbolic integer inputs (32-bit); sequential executions only (no goroutine schedules)"
 //verif:assume sequential footprint argument: if no execution writes shared memory (prototype, package variables) then states sharing them cannot interfere through them; data races and channel delivery are outside this check
 func H_C13_footprint() {
 	k := VChoice(len(c13Programs))
